@@ -222,6 +222,7 @@ class MinPathCoverCycles(walkmodel.AbstractWalkModelDiGraph):
         if self._lowerbound_k is None:
             stG = stdigraph.stDiGraph(self.G)
             # The synthetic source/sink edges need not be covered by the walks
-            self._lowerbound_k = stG.get_width(edges_to_ignore=list(self.edges_to_ignore) + list(stG.source_sink_edges))
+            # (at least one walk: the k-cover models need k >= 1 even when every edge is ignored)
+            self._lowerbound_k = max(1, stG.get_width(edges_to_ignore=list(self.edges_to_ignore) + list(stG.source_sink_edges)))
 
         return self._lowerbound_k
